@@ -313,5 +313,8 @@ func dedup(in []string) []string {
 	return out
 }
 
-func TestC08(t *testing.T)        { h.RunProp(t, "C08", genC08, checkC08) }
-func TestC08_Replay(t *testing.T) { h.RunReplay(t, "C08", checkC08) }
+func TestC08(t *testing.T) { h.RunProp(t, "C08", genC08, checkC08) }
+func TestC08_Replay(t *testing.T) {
+	h.RunReplay(t, "C08", checkC08)
+	h.RunReplay(t, "C08.capture", checkC08Capture)
+}
